@@ -17,7 +17,7 @@ Non-trivial = >=2 nested control constructs, or a loop with >=1 iteration, or a 
         "primitive meanings follow the behaviour pinned by the repository's tests (rot exchanges 1st and 3rd, case leaves the selector for the default part)",
     ],
     max_len: 700,
-    quick_cases: 24_000,
+    quick_cases: 160_000,
     thorough_cases: 1_200_000,
     case,
     systematic: None,
